@@ -8,7 +8,7 @@
      cases_triggers  the triggers of the recorded findings, per configuration *)
 From Coq Require Import Qabs.
 From TT Require Import Model.Doc Gen.StyleTables Model.Isd Model.SigTimes Model.TimeCode Model.IsdFilters Gen.CueTables Model.CueWriter.
-From TT Require Import Model.CueTriggers Spec.IsdSpec Spec.CueSpec.
+From TT Require Import Model.CueTriggers Spec.IsdSpec Spec.CueSpec Spec.CueSettings.
 
 (* what the implementation did: the returned string, or the stage at which it raised
    (1 = snapshot generation, 3 = negative time, 4 = to_string ValueError, 5 = AttributeError in process_p) *)
@@ -58,6 +58,8 @@ Definition cases_writers (d : doc) (srt : list (bool * pyout)) (vtt : list (vtt_
   map (fun x => out_eqb (srt_of_seq (fst x) s) (snd x)) srt ++
   map (fun x => if line_position (fst x) && tie then out_eqb_masked (vtt_of_seq (fst x) s) (snd x) else out_eqb (vtt_of_seq (fst x) s) (snd x)) vtt.
 Definition cases_ties (d : doc) : list bool := [negb (seq_tie (isd_sequence d))].
+(* documents whose colour values are distinct equal objects: outside the model's reading of `is`; judged by S only *)
+Definition cases_skip (n : nat) : list bool := repeat true n.
 
 Definition cases_wf (srt : list (bool * pyout)) (vtt : list (vtt_config * pyout)) : list bool :=
   map (fun x => match snd x with PyOk t => srt_wf t | PyErr _ => false end) srt ++
@@ -120,24 +122,54 @@ Definition cases_runs (d : doc) (srt : list (bool * pyout)) (vtt : list (vtt_con
   | Err _ => map (fun _ => false) srt ++ map (fun _ => false) vtt
   end.
 
+(* ---- C07: cue settings (the WebVTT configurations only) ------------------------------------------------------------------ *)
+Definition cases_settings (d : doc) (vtt : list (vtt_config * pyout)) : list bool :=
+  match isd_sequence d with
+  | Ok seq =>
+      map (fun x => match snd x with
+                    | PyOk t => match vtt_parse t with
+                                | Some cs => settings_ok (line_position (fst x)) (text_align (fst x)) seq cs
+                                | None => false
+                                end
+                    | PyErr _ => false
+                    end) vtt
+  | Err _ => map (fun _ => false) vtt
+  end.
+(* align-lost-when-paragraphs-merged: text_align is on and a cue covers two or more p elements (which the paragraph-merging
+   filter replaces by one unstyled p) whose text-showing paragraphs agree on an alignment *)
+Fixpoint count_p (e : elem) : Z :=
+  match e with
+  | Elem a cs =>
+      match e_kind a with
+      | KP => 1
+      | _ => (fix go (l : list elem) : Z := match l with [] => 0 | c :: l' => count_p c + go l' end) cs
+      end
+  end.
+Definition trig_align_lost (cfg : vtt_config) (seq : list (Q * list elem)) : bool :=
+  text_align cfg &&
+  existsb (fun x => existsb (fun scope => (2 <=? fold_left (fun n r => n + count_p r) scope 0) &&
+                                          match agreed_align (flat_map paragraph_aligns scope) with Some (Some _) => true | _ => false end)
+                            (snapshot_scopes (line_position cfg) (snd x))) seq.
+
 (* ---- triggers: per configuration [ruby; nested div; tags only; collapsed; unbounded; arrow; blank line; line range;
-   snapshot generation failed; SubRip markup in text] (true = the trigger does NOT fire) ------------------------------ *)
-Definition ntrig : nat := 10.
+   snapshot generation failed; SubRip markup in text; style reset in a nested span; alignment lost] (true = the trigger does NOT fire) ------------------------------ *)
+Definition ntrig : nat := 12.
 Definition srt_markup_in_text (cs : list cue) : bool :=
   existsb (fun c => existsb (fun p => match p with PChar _ => false | _ => true end) (srt_lex LText (cue_chars c))) cs.
-Definition trig_row (ruby nested : bool) (ws_lines : bool) (esc : Z -> text) (markup : bool) (cs : res (list cue)) : list bool :=
+Definition trig_row (ruby nested reset alost : bool) (ws_lines : bool) (esc : Z -> text) (markup : bool) (cs : res (list cue)) : list bool :=
   match cs with
   | Ok l => map negb [ruby; nested; trig_tags_only l; trig_collapsed l; trig_unbounded l; trig_arrow esc l;
-                      trig_blank_line ws_lines esc l; trig_line_range l; false; markup && srt_markup_in_text l]
-  | Err _ => map negb [ruby; nested; false; false; false; false; false; false; true; false]
+                      trig_blank_line ws_lines esc l; trig_line_range l; false; markup && srt_markup_in_text l; reset; alost]
+  | Err _ => map negb [ruby; nested; false; false; false; false; false; false; true; false; reset; alost]
   end.
 Definition cases_triggers (d : doc) (srt : list (bool * pyout)) (vtt : list (vtt_config * pyout)) : list bool :=
   match isd_sequence d with
   | Ok seq =>
       let ruby := trig_ruby seq in
-      flat_map (fun x => trig_row ruby false true esc_none true (srt_cues (fst x) seq)) srt ++
-      flat_map (fun x => trig_row ruby (trig_nested_div (fst x) seq) false esc_vtt false
+      let reset := trig_reset_style seq in
+      flat_map (fun x => trig_row ruby false (fst x && reset) false true esc_none true (srt_cues (fst x) seq)) srt ++
+      flat_map (fun x => trig_row ruby (trig_nested_div (fst x) seq) reset (trig_align_lost (fst x) seq) false esc_vtt false
                                   (match vtt_cues (fst x) seq with Ok r => Ok (fst r) | Err c => Err c end)) vtt
-  | Err _ => flat_map (fun _ => map negb [false; false; false; false; false; false; false; false; true; false]) (map fst srt) ++
-             flat_map (fun _ => map negb [false; false; false; false; false; false; false; false; true; false]) (map fst vtt)
+  | Err _ => flat_map (fun _ => map negb [false; false; false; false; false; false; false; false; true; false; false; false]) (map fst srt) ++
+             flat_map (fun _ => map negb [false; false; false; false; false; false; false; false; true; false; false; false]) (map fst vtt)
   end.
